@@ -1,6 +1,7 @@
 """Trusted model bodies for the OS-level objects used by the blocking transports (selectors, sockets) and the generic
 callback handed to SelectorBaseTransport._retry.  Interpreted by the PyVC engine."""
 import selectors
+import ssl
 
 from easynetwork.lowlevel.api_sync.transports.base_selector import WouldBlockOnRead, WouldBlockOnWrite
 
@@ -221,3 +222,70 @@ class DatagramSocket:
             raise_any(OSError, BlockingIOError, InterruptedError)
         ghost.DG_OUT = ghost.DG_OUT + unit(bytes(data))
         return len(data)
+
+
+class SSLSocket:
+    """ssl.SSLSocket (non-blocking).  recv/recv_into: data, would-block (SSLWantRead/Write), the peer's close_notify
+    (SSLZeroReturnError), or an abrupt end: b''/0 when suppress_ragged_eofs was requested at wrap time, SSLEOFError otherwise."""
+
+    def fileno(self):
+        return nondet_int()
+
+    def _outcome(self):
+        k = nondet_int()
+        if k == 0:
+            raise ssl.SSLWantReadError
+        if k == 1:
+            raise ssl.SSLWantWriteError
+        if k == 2:
+            ghost.tls_cause = 1
+            raise ssl.SSLZeroReturnError
+        if k == 3:
+            ghost.tls_cause = 2
+            if self.suppress_ragged_eofs:
+                return True
+            raise ssl.SSLEOFError
+        if k == 4:
+            ghost.tls_cause = 3
+            raise ssl.SSLCertVerificationError
+        if k == 5:
+            ghost.tls_cause = 4
+            raise_any(OSError, ssl.SSLError)
+        ghost.tls_cause = 0
+        return False
+
+    def recv(self, bufsize):
+        if self._outcome():
+            return b""
+        d = nondet_bytes()
+        assume(1 <= len(d) and len(d) <= bufsize)
+        return d
+
+    def recv_into(self, buffer):
+        if self._outcome():
+            return 0
+        n = nondet_int()
+        assume(1 <= n and n <= len(buffer))
+        return n
+
+    def unwrap(self):
+        """Sends the close_notify alert (and waits for the peer's): may need several attempts (want read/write)."""
+        ghost.unwrap_calls = ghost.unwrap_calls + 1
+        k = nondet_int()
+        if k == 0:
+            raise ssl.SSLWantReadError
+        if k == 1:
+            raise ssl.SSLWantWriteError
+        if k == 2:
+            raise_any(OSError)
+        if k == 3:
+            raise ValueError
+        return self
+
+    def shutdown(self, how):
+        if nondet_bool():
+            raise OSError
+        return None
+
+    def close(self):
+        ghost.socket_closed = True
